@@ -257,15 +257,14 @@ fn build_timespan(pair: Pair<Rule>) -> Result<ts::TimeSpan> {
         Some(pair) => (false, build_extended_time(pair)?),
     };
 
-    let (open_end, repeats) = match pairs.next().map(|x| x.as_rule()) {
+    let (open_end, repeats) = match pairs.next() {
         None => (open_end, None),
-        Some(Rule::timespan_plus) => (true, None),
-        Some(Rule::minute) => (open_end, Some(build_minute(pairs.next().unwrap()))),
-        Some(Rule::hour_minutes) => (
-            open_end,
-            Some(build_hour_minutes_as_duration(pairs.next().unwrap())),
-        ),
-        Some(other) => unexpected_token(other, Rule::timespan),
+        Some(pair) => match pair.as_rule() {
+            Rule::timespan_plus => (true, None),
+            Rule::minute => (open_end, Some(build_minute(pair))),
+            Rule::hour_minutes => (open_end, Some(build_hour_minutes_as_duration(pair))),
+            other => unexpected_token(other, Rule::timespan),
+        },
     };
 
     assert!(pairs.next().is_none());
@@ -738,12 +737,12 @@ fn build_hour_minutes_as_duration(pair: Pair<Rule>) -> Duration {
     assert_eq!(pair.as_rule(), Rule::hour_minutes);
     let mut pairs = pair.into_inner();
 
-    let hour = pairs
-        .next()
-        .expect("missing hour")
-        .as_str()
-        .parse()
-        .expect("invalid hour");
+    // the literal "24:00" has no inner pair
+    let Some(hour_rule) = pairs.next() else {
+        return Duration::hours(24);
+    };
+
+    let hour = hour_rule.as_str().parse().expect("invalid hour");
 
     let minutes = pairs
         .next()
